@@ -17,28 +17,50 @@ LEVEL_TEXT = ('Proved in Coq for all inputs (any ascending NaN-free bin list of 
               'listed values, 0 on other finite cells, NaN otherwise (C12_binary_spec); for bins whose last element is >= the value every finite '
               'cell gets an integer class in [0,k-1] (C12_class_range), classes are order preserving (C12_class_monotone) and unique; '
               'equal_interval over exact cuts gives class i exactly on the i-th equal-width interval (C12_equal_interval_bands). '
+              'natural_breaks: a faithful imperative model of _run_numpy_jenks_matrices (the triple loop over both matrices, the `>=` tie rule, '
+              '+inf / zero initial entries, the skipped start 0, running w/sum/sum_squares) and of the back-tracking in _run_jenks, over exact '
+              'rationals, is proved for EVERY data list and EVERY k >= 1 to compute the Fisher-Jenks recurrence cell by cell '
+              '(C12_jenks_imp_var_combinations, _lower_class_limits, _tie_rule, _untouched, _variance_is_ssd, _min), that recurrence is the '
+              'minimum within-class SSD over all partitions into k contiguous classes (C12_jenks_min_lower_bound / _attained), and on ascending '
+              'data with at least k distinct values (what _run_natural_break guarantees) no back-tracking index underflows '
+              '(C12_jenks_imp_no_underflow) and the back-tracked cuts are a partition into exactly k non-empty classes attaining that minimum, '
+              'the returned breaks being the class maxima (C12_jenks_imp_backtrack_optimal, _breaks, _optimal_on_sorted_distinct). '
               'The tie to the code is the correspondence (all five public classifiers vs the extracted model, bins captured at the _bin call, '
-              'exhaustive value-vs-bin positions for 1..12 (24 thorough) bins). Oracle-only (exact arithmetic in Python, not Coq theorems): '
-              'the float cut construction of equal_interval/quantile and Jenks optimality of natural_breaks on small inputs.')
+              'exhaustive value-vs-bin positions for 1..12 (24 thorough) bins; _run_numpy_jenks_matrices / _run_jenks from the working tree vs the '
+              'extracted imperative model: every cell of lower_class_limits exactly except exact/near ties, var_combinations to 1e-5, the breaks exactly). '
+              'Oracle-only (exact arithmetic in Python, not Coq theorems): the float cut construction of equal_interval/quantile.')
 LEVEL_NOTE = ('Trusted: Coq kernel; extraction (ExtrOcamlBasic); the order-preserving embedding of one case\'s finite doubles into Z; the harness/oracle; '
-              'Numba compiles _cpu_bin/_cpu_binary as the model reads them (checked by correspondence only); np.percentile/np.arange/np.unique and the '
-              'Jenks DP are not modelled. All C12 theorems are closed under the global context (no axioms).')
+              'Numba compiles _cpu_bin/_cpu_binary/_run_numpy_jenks_matrices as the models read them (checked by correspondence only); '
+              'np.percentile/np.arange/np.unique/ndarray.sort are not modelled; the Jenks model computes in exact rationals, the code in '
+              'float64 with float32 squares and float32 matrices. All C12 theorems are closed under the global context (no axioms).')
 RULE = ('reclassify: for every bin count 1..N every position of a value relative to the bins (below first, equal to each '
         'bin, between each pair, above last, NaN, +-inf) x bin lists with ties / +-inf ends x dtypes; binary: random value '
         'lists incl. NaN/inf; quantile/equal_interval/natural_breaks: random rasters (ties, NaN/inf, float32/float64/int, '
-        'values not representable in float32) for k=2..9 with the bins captured at the _bin call. A case is non-trivial '
-        'when it has >= 1 finite cell and distinct from the others by its JSON encoding.')
+        'values not representable in float32) for k=2..9 with the bins captured at the _bin call; Jenks matrices: sorted '
+        'integer/dyadic lists of 2..10 (14 thorough) points, k=1..5, all-distinct / tie-heavy / fewer distinct values than k. '
+        'A case is non-trivial when it has >= 1 finite cell and distinct from the others by its JSON encoding.')
 TRUSTED = [
     'finite doubles of one case are embedded into Z by a common power-of-two scale (exact, order preserving); the model '
     'only compares values, so this embedding is faithful',
-    'the bins of the data-driven classifiers (np.percentile, np.arange, the Jenks DP) are taken from the implementation '
+    'the bins of quantile / equal_interval (np.percentile, np.arange) are taken from the implementation '
     '(captured at its _bin call) and checked by the Python oracle, not modelled in Coq',
+    'natural_breaks: the Jenks model (coq/C12/JenksImp.v) is over exact rationals; the code accumulates sum/sum_squares in float64 from '
+    'float32-rounded values (val*val in float32), stores both matrices in float32 and compares float32 entries with float64 candidates. '
+    'That the code and the model agree is checked by correspondence on data whose arithmetic is exact or within 1e-5 '
+    '(small integers / dyadics), cells where two candidates tie or lie within 1e-6 relative being skipped for lower_class_limits',
+    'natural_breaks: ndarray.sort, np.unique (the `uvk < k` test), the sampling and `bins[-1] = max` are read from the source, not modelled; '
+    'the theorems take ascending data with >= k distinct values as hypotheses',
 ]
-ASSUMPTIONS = ['equal_interval needs two distinct finite values (min < max; otherwise the k intervals are undefined and np.arange raises)', 'NumPy backend only (Dask equality is C01); bins passed to reclassify are ascending and NaN-free (the property\'s domain)']
+ASSUMPTIONS = ['equal_interval needs two distinct finite values (min < max; otherwise the k intervals are undefined and np.arange raises)', 'NumPy backend only (Dask equality is C01); bins passed to reclassify are ascending and NaN-free (the property\'s domain)',
+               'natural_breaks optimality theorems: the data handed to _run_jenks are ascending with at least k distinct values '
+               '(sortedQ, distinct_upto) — established by _run_natural_break before the call; without it the back-tracking reads data[-1]/row 0 '
+               '(modelled: C12_jenks_imp_underflow_example) and nothing is claimed']
 PARTIAL = [
-    'natural_breaks: the Fisher-Jenks recurrence is proved optimal for a FUNCTIONAL exact-rational model (C12_jenks_min_lower_bound / _attained); '
-    'that the float32 matrices of _run_numpy_jenks_matrices and the back-tracking of _run_jenks compute that recurrence is tied only by the '
-    'correspondence (the implementation\'s partition attains the model\'s minimum on small exact inputs), not proved',
+    'natural_breaks: proved for the exact-rational imperative model; the float32/float64 rounding of the real matrices is not modelled '
+    '(on inputs where rounding changes which candidate wins, the returned partition may be optimal only up to that rounding) — '
+    'correspondence + oracle on small exact inputs',
+    'natural_breaks: that classification by `first break >= value` reproduces the back-tracked partition (i.e. that an optimal cut never '
+    'separates equal values) is not proved; the oracle checks the SSD of the classes the breaks induce against the exact minimum',
     'equal_interval / quantile bin construction: oracle only (float arange / percentile are NumPy primitives)',
 ]
 
@@ -426,7 +448,8 @@ def compare_jenks_imp(ctx, case, impl, mo):
                 kclass, [float(b) for b in m_breaks], case['data'], k, m_ok), dict(case, impl=kclass, model=[float(b) for b in m_breaks]))
             return
         ctx.count('jenksimp/breaks-compared')
-    # the precondition of C12_jenks_imp_backtrack_optimal is what natural_breaks guarantees (unclaimed in Coq: checked here)
+    # C12_jenks_imp_no_underflow: ascending data with >= k distinct values never underflow (a failure here means the
+    # extracted model and the theorem disagree, i.e. the build is inconsistent)
     if len(set(case['data'])) >= k and not m_ok:
         ctx.violation('correspondence', 'jenks back-tracking: data %r have >= %d distinct values but the model\'s back-tracking '
                       'underflows (jenks_bt_ok = false)' % (case['data'], k), case)
